@@ -63,7 +63,8 @@ def zbool(v):
             return z3.BoolVal(v.n > 0)
         return v.n > 0
     if isinstance(v, SMap):
-        raise Unsupported('truthiness of symbolic map')
+        k = z3.Int(cur().fresh_name('q'))
+        return z3.Exists([k], zbool(v.has(mk(k))))
     if isinstance(v, (list, tuple, dict, str, bytes, set, frozenset)):
         return z3.BoolVal(len(v) > 0)
     return z3.BoolVal(True)        # objects, classes, functions (A3)
@@ -115,12 +116,67 @@ def _bitop(op, a, b):
                 return mk(((zint(a) / lo) % (b // lo + 1)) * lo)
     st = cur()
     x, y = zint(a), zint(b)
+    W = BVW
     if st is not None:
-        st.side_assume_range(x, 0, 2 ** BVW)
-        st.side_assume_range(y, 0, 2 ** BVW)
-    bx, by = z3.Int2BV(x, BVW), z3.Int2BV(y, BVW)
+        # smallest width in which both operands provably fit (queries stay small: 16-bit registers, 8-bit bytes)
+        for w in (8, 16, 32):
+            if st.provable(z3.And(x >= 0, x < 2 ** w, y >= 0, y < 2 ** w)):
+                W = w
+                break
+        else:
+            if op == '&':
+                # python & on a negative operand is two's complement with infinite sign extension: exact in W bits
+                # as soon as the other operand is within 0 .. 2^W-1 (int2bv reduces modulo 2^W)
+                for w in (16, 32):
+                    if st.provable(z3.And(x >= -(2 ** w), x < 2 ** w, y >= -(2 ** w), y < 2 ** w)) and \
+                            (st.provable(z3.And(x >= 0, x < 2 ** w)) or st.provable(z3.And(y >= 0, y < 2 ** w))):
+                        W = w
+                        break
+                else:
+                    raise Unsupported('& on operands not provably within %d bits' % BVW)
+            else:
+                raise Unsupported('bitwise %s on operands not provably within 0..2^%d' % (op, BVW))
+    bx, by = tobv(x, W), tobv(y, W)
     r = {'&': bx & by, '|': bx | by, '^': bx ^ by}[op]
     return mk(z3.BV2Int(r, False))
+
+
+def tobv(t, W):
+    """int2bv pushed to the leaves: int2bv is a ring homomorphism modulo 2^W, so +, -, * by constants,
+    ite, bv2int and `mod 2^k` (k >= W) translate structurally; anything else becomes an int2bv leaf."""
+    t = z3.simplify(t)
+    if z3.is_int_value(t):
+        return z3.BitVecVal(t.as_long() % (2 ** W), W)
+    k = t.decl().kind() if z3.is_app(t) else None
+    if k == z3.Z3_OP_ADD:
+        acc = tobv(t.arg(0), W)
+        for i in range(1, t.num_args()):
+            acc = acc + tobv(t.arg(i), W)
+        return acc
+    if k == z3.Z3_OP_SUB:
+        acc = tobv(t.arg(0), W)
+        for i in range(1, t.num_args()):
+            acc = acc - tobv(t.arg(i), W)
+        return acc
+    if k == z3.Z3_OP_UMINUS:
+        return -tobv(t.arg(0), W)
+    if k == z3.Z3_OP_MUL and t.num_args() == 2 and (z3.is_int_value(t.arg(0)) or z3.is_int_value(t.arg(1))):
+        return tobv(t.arg(0), W) * tobv(t.arg(1), W)
+    if k == z3.Z3_OP_ITE:
+        return z3.If(t.arg(0), tobv(t.arg(1), W), tobv(t.arg(2), W))
+    if k == z3.Z3_OP_BV2INT:
+        z = t.arg(0)
+        w = z.size()
+        if w == W:
+            return z
+        if w < W:
+            return z3.ZeroExt(W - w, z)
+        return z3.Extract(W - 1, 0, z)
+    if k == z3.Z3_OP_MOD and z3.is_int_value(t.arg(1)):
+        m = t.arg(1).as_long()
+        if m > 0 and (m & (m - 1)) == 0 and m >= 2 ** W:
+            return tobv(t.arg(0), W)
+    return z3.Int2BV(t, W)
 
 
 class SInt:
@@ -247,7 +303,14 @@ def _arith(op, a, b):
                 from .engine import Raised
                 raise Raised('ValueError')
             return mk(x * (2 ** b)) if op == '<<' else mk(x / (2 ** b))
-        raise Unsupported('shift by a symbolic amount')
+        # symbolic shift amount: case split when it is provably within 0..16
+        st = cur()
+        if st is not None and st.provable(z3.And(y >= 0, y <= 16)):
+            r = (x * (2 ** 16)) if op == '<<' else (x / (2 ** 16))
+            for sh in range(15, -1, -1):
+                r = z3.If(y == sh, (x * (2 ** sh)) if op == '<<' else (x / (2 ** sh)), r)
+            return mk(r)
+        raise Unsupported('shift by a symbolic amount not provably within 0..16')
     raise Unsupported(op)
 
 
